@@ -149,7 +149,7 @@ TRAINERS = [("STDP", False), ("STDP", True), ("TripletSTDP", False), ("MSTDP", F
 
 
 def fixtures(rng: random.Random, tier: str):
-    reps = 3 if tier == "quick" else 8
+    reps = 3 if tier == "quick" else 24
     out = []
     for _ in range(reps):
         for mode in ("exact", "tol"):
@@ -309,7 +309,7 @@ def projection_traces_category(chk: Check, rng: random.Random, tier: str):
     """batched neurons (adaptation frozen), per-sample random / adversarial drives; every element
     of the batched run, projected, must be a behaviour of the single-element NeuronStep spec"""
     traces, metas = [], []
-    reps = 3 if tier == "quick" else 8
+    reps = 3 if tier == "quick" else 24
     for _ in range(reps):
         for cls in CLASSES:
             B = rng.randint(2, 5)
@@ -359,7 +359,7 @@ def projection_traces_dyadic(chk: Check, rng: random.Random, tier: str):
     determined by that sample's inputs alone"""
     traces, metas = [], []
     S = SCALE
-    reps = 5 if tier == "quick" else 16
+    reps = 5 if tier == "quick" else 48
     for _ in range(reps):
         for cls in ("LIF", "GLIF1", "ALIF", "GLIF2"):
             fix = NeuronFix(rng, rng.randint(2, 5), "exact", cls)
